@@ -377,8 +377,10 @@ class BinningBase:
                 bins[new, 1] = self.bins[old, 1]
         if np.any(np.isnan(bins)):
             raise ValueError("New binning is not complete.")
-        includes_right_edge = (
-            self.includes_right_edge and bins[-1, 1] == self.bins[-1, 1]
+        includes_right_edge = bool(
+            self.includes_right_edge
+            and length > 0
+            and bins[-1, 1] == self.bins[-1, 1]
         )
         binning = StaticBinning(bins, includes_right_edge=includes_right_edge)
         return binning
